@@ -273,6 +273,15 @@ mutual
     | buf, .call _ name allData data params, sc =>
       -- `{call name …}`: the content params are rendered into buffers of their own first
       callJoin buf name (callBase sc allData data) (toParams params sc)
+    | buf, .css _ e suffix, sc =>
+      -- `{css $e, name}`: the value of `e`, a hyphen, the name — unescaped; `{css name}`: the name
+      (match e with
+        | none => some (.one (.appendLit buf suffix), sc)
+        | some e =>
+          (match toAst sc e with
+            | some j => some (.cons (.appendCss buf j) (.one (.appendLit buf suffix)), sc)
+            | none => none))
+    | _, .debugger _, sc => some (.one .debuggerS, sc)
     | buf, .msg _ _ _ _ _ body, sc =>
       -- `{msg}` WITHOUT a message bundle: the parts one after the other (no goog.getMsg), in a frame of their own
       msgJoin (toParts buf body sc.push)
@@ -399,6 +408,8 @@ mutual
     | .call b callee base params =>
       [.fixed (spaces ind), .ident b, .fixed b!" += ", (if es6 then .es6name callee else .qname callee), .fixed b!"("] ++
         dataPieces base params ++ [.fixed b!", opt_sb, opt_ijData);", .fixed [10]]
+    | .appendCss b e => [.fixed (spaces ind), .ident b, .fixed b!" += "] ++ render e ++ [.fixed b!" + '-';", .fixed [10]]
+    | .debuggerS => [.fixed (spaces ind), .fixed b!"debugger;", .fixed [10]]
     | .pluralS e cases dflt =>
       [.fixed (spaces ind), .fixed b!"switch ("] ++ render e ++ [.fixed b!") {", .fixed [10]] ++ renderPlural es6 (ind + 1) cases ++
         [.fixed (spaces (ind + 1)), .fixed b!"default:", .fixed [10]] ++ renderStmts es6 (ind + 1 + 1) dflt ++
@@ -1256,6 +1267,40 @@ theorem ph_cmd_runs (c : Cmd) (r : JsStmts × Scope)
 
 end
 
+/-! ### css, debugger -/
+
+section
+variable (sk : List Bytes → List Bytes) (o : Options) [GlobalsAre o]
+variable {ind : Nat} {buf : Bytes} {ae : Autoescape} {sc : Scope}
+
+theorem css_none_runs (p : Nat) (suffix : Bytes) :
+    Runs (At ind buf ae sc) (At ind buf ae sc) (walkCmd sk o (.css p none suffix))
+      (renderStmts (isEs6 o) ind (.one (.appendLit buf suffix))) := by
+  sunfold walkCmd
+  unfold writeRawText
+  exact (Runs.seq Runs.atOther (Runs.seq Runs.pure (Runs.seq Runs.indentP (Runs.getBuf
+    (Runs.seq (Runs.emit _) (Runs.seq (Runs.fx _) (Runs.seq (Runs.emit _) (Runs.fx _)))))))).cast
+    (by simp [renderStmts_one, renderStmt])
+
+theorem css_some_runs (p : Nat) (e : Expr) (suffix : Bytes) (j : JsExpr) (hj : toAst sc e = some j) :
+    Runs (At ind buf ae sc) (At ind buf ae sc) (walkCmd sk o (.css p (some e) suffix))
+      (renderStmts (isEs6 o) ind (.cons (.appendCss buf j) (.one (.appendLit buf suffix)))) := by
+  sunfold walkCmd
+  unfold writeRawText
+  have hv := walkExpr_renders sk o sc e j hj
+  exact (Runs.seq Runs.atOther (Runs.seq (Runs.seq Runs.indentP (Runs.getBuf (Runs.seq (Runs.emit _) (Runs.seq (Runs.fx _)
+    (Runs.seq (Runs.expr hv) (Runs.seq (Runs.fx _) Runs.nl)))))) (Runs.seq Runs.indentP (Runs.getBuf
+    (Runs.seq (Runs.emit _) (Runs.seq (Runs.fx _) (Runs.seq (Runs.emit _) (Runs.fx _)))))))).cast
+    (by simp [renderStmts, renderStmt, JsStmts.one])
+
+theorem debugger_runs (p : Nat) :
+    Runs (At ind buf ae sc) (At ind buf ae sc) (walkCmd sk o (.debugger p)) (renderStmts (isEs6 o) ind (.one .debuggerS)) := by
+  sunfold walkCmd
+  exact (Runs.seq Runs.atOther (Runs.seq Runs.indentP (Runs.seq (Runs.fx _) Runs.nl))).cast
+    (by simp [renderStmts_one, renderStmt])
+
+end
+
 /-! ### plural (no bundle) -/
 
 theorem pcaseJoin_some {sc : Scope} {v : Int} {rb : Option (JsStmts × Scope)} {rest : Scope → Option (JsPlural × Scope)}
@@ -1382,8 +1427,19 @@ mutual
       unfold toCmd at h
       obtain ⟨rb, hrb, rfl⟩ := msgJoin_some h
       exact msg_runs sk o ho p id m d bp body rb (visitMsgNode_renders body buf _ rb hrb ind)
-    | .css .., _, _, _, h, _ => by simp [toCmd] at h
-    | .debugger .., _, _, _, h, _ => by simp [toCmd] at h
+    | .css p none suffix, buf, sc, r, h, ind => by
+      simp only [toCmd, Option.some.injEq] at h; subst h
+      exact css_none_runs sk o p suffix
+    | .css p (some e) suffix, buf, sc, r, h, ind => by
+      simp only [toCmd] at h
+      split at h
+      · rename_i j hj
+        simp only [Option.some.injEq] at h; subst h
+        exact css_some_runs sk o p e suffix j hj
+      · cases h
+    | .debugger p, buf, sc, r, h, ind => by
+      simp only [toCmd, Option.some.injEq] at h; subst h
+      exact debugger_runs sk o p
     | .log .., _, _, _, h, _ => by simp [toCmd] at h
     | .forc p v list body none, buf, sc, r, h, ind => by
       unfold toCmd at h
@@ -1635,6 +1691,11 @@ mutual
         (refBase R allData data env).bind fun b =>
           (refParams params env).bind fun ps =>
             (R.call callee { entry := ps ++ b, ij := env.ij, globals := env.globals }).bind fun out => .val (out, env)
+    | .css _ e suffix, env =>
+      (match e with
+        | none => .val (suffix, env)
+        | some e => (Spec.Eval.eval env e).bind fun v => (Spec.Eval.showVal v).bind fun s => .val (s ++ [45] ++ suffix, env))
+    | .debugger _, env => .val ([], env)
     | .msg _ _ _ _ _ body, env =>
       -- no message bundle: the parts in order; the body is a scope of its own
       (refParts body env).bind fun r => .val (r.1, env)
@@ -2031,8 +2092,18 @@ mutual
       have hst : rb.2.pop.stack = sc.stack := by simp only [Scope.pop]; rw [b2]; rfl
       have hn : sc.n ≤ rb.2.pop.n := b3
       exact ⟨scOk_of_stack hs hst hn, by rw [hst], hn⟩
-    | .css .., _, _, _, h, _ => by simp [toCmd] at h
-    | .debugger .., _, _, _, h, _ => by simp [toCmd] at h
+    | .css p none suffix, buf, sc, r, h, hs => by
+      simp only [toCmd, Option.some.injEq] at h; subst h
+      exact ⟨hs, rfl, Nat.le_refl _⟩
+    | .css p (some e) suffix, buf, sc, r, h, hs => by
+      simp only [toCmd] at h
+      split at h
+      · simp only [Option.some.injEq] at h; subst h
+        exact ⟨hs, rfl, Nat.le_refl _⟩
+      · cases h
+    | .debugger p, buf, sc, r, h, hs => by
+      simp only [toCmd, Option.some.injEq] at h; subst h
+      exact ⟨hs, rfl, Nat.le_refl _⟩
     | .log .., _, _, _, h, _ => by simp [toCmd] at h
     | .forc p v list body none, buf, sc, r, h, hs => by
       unfold toCmd at h
@@ -2307,8 +2378,15 @@ mutual
       obtain ⟨_, b2, _⟩ := toParts_scope ae body buf sc.push rb hrb (scOk_push hs.2)
       have hst : rb.2.pop.stack = sc.stack := by simp only [Scope.pop]; rw [b2]; rfl
       exact goodBuf_of_stack hg hst hsc.2.2
-    | .css .., _, _, _, h, _, _, _ => by simp [toCmd] at h
-    | .debugger .., _, _, _, h, _, _, _ => by simp [toCmd] at h
+    | .css p none suffix, buf, sc, r, h, hs, g, hg => by
+      simp only [toCmd, Option.some.injEq] at h; subst h; exact hg
+    | .css p (some e) suffix, buf, sc, r, h, hs, g, hg => by
+      simp only [toCmd] at h
+      split at h
+      · simp only [Option.some.injEq] at h; subst h; exact hg
+      · cases h
+    | .debugger p, buf, sc, r, h, hs, g, hg => by
+      simp only [toCmd, Option.some.injEq] at h; subst h; exact hg
     | .log .., _, _, _, h, _, _, _ => by simp [toCmd] at h
     | .call p name allData data params, buf, sc, r, h, hs, g, hg => by
       unfold toCmd at h
@@ -3840,6 +3918,48 @@ theorem forc_some_ok (p : Nat) (v : Bytes) (list : Expr) (body ie : Block) (ihb 
 
 /-! ### a content block: the body writes to a buffer of its own -/
 
+/-! ### css, debugger -/
+
+theorem css_none_ok (p : Nat) (suffix : Bytes) : CmdOk F G R ae buf (.css p none suffix) := by
+  intro fuel sc r env jenv jenv' out h hs hg hrel hb hx
+  have := rawText_ok F G R ae buf p suffix fuel sc r env jenv jenv' out (by simpa [toCmd] using h) hs hg hrel hb hx
+  simpa [refCmd] using this
+
+theorem css_some_ok (p : Nat) (e : Expr) (suffix : Bytes) : CmdOk F G R ae buf (.css p (some e) suffix) := by
+  intro fuel sc r env jenv jenv' out h hs hg hrel hb hx
+  simp only [toCmd] at h
+  split at h
+  · rename_i j hj
+    simp only [Option.some.injEq] at h; subst h
+    simp only [execStmts] at hx
+    obtain ⟨e1, hx1, hx2⟩ := sres_bind_ok hx
+    simp only [execStmt] at hx1
+    obtain ⟨jv, hjv, hx1⟩ := withVal_ok hx1
+    obtain ⟨v, hv, hvj⟩ := C04c.gen_correct_refs_partial sc env jenv hrel e j jv hj hjv
+    cases hs' : toStr? jv with
+    | none => simp [hs'] at hx1
+    | some s =>
+      simp only [hs'] at hx1
+      obtain ⟨s1, hs1, rfl⟩ := appendTo_ok hb hx1
+      simp only [toStr?, Option.some.injEq] at hs1; subst hs1
+      have k1 := keeps_setBuf buf sc.n jenv (.str (out ++ (s ++ [45])))
+      have hrel1 : EnvRel R.entry sc env (setLocal jenv buf (.str (out ++ (s ++ [45])))) :=
+        envRel_keep hrel k1 hs.2 (Nat.le_refl _) hg.2 rfl
+      obtain ⟨t2, env2, ht2, hrel2, hb2, hk2⟩ := rawText_ok F G R ae buf p suffix fuel sc (.one (.appendLit buf suffix), sc) env _ jenv'
+        (out ++ (s ++ [45])) (by simp [toCmd]) hs hg hrel1 (bufIs_setBuf _ _ _) hx2
+      simp only [refCmd, Out.val.injEq, Prod.mk.injEq] at ht2
+      obtain ⟨rfl, rfl⟩ := ht2
+      refine ⟨s ++ [45] ++ suffix, env, ?_, hrel2, by simpa [List.append_assoc] using hb2, k1.trans hk2 (Nat.le_refl _)⟩
+      simp [refCmd, hv, C04c.showVal_toStr v jv s hvj hs', Spec.Eval.Out.bind]
+  · cases h
+
+theorem debugger_ok (p : Nat) : CmdOk F G R ae buf (.debugger p) := by
+  intro fuel sc r env jenv jenv' out h hs hg hrel hb hx
+  simp only [toCmd, Option.some.injEq] at h; subst h
+  rw [execStmts_one] at hx
+  simp only [execStmt, SRes.ok.injEq] at hx; subst hx
+  exact ⟨[], env, by simp [refCmd], hrel, by simpa using hb, Keeps.refl _ _ _⟩
+
 /-! ### msg (no bundle) -/
 
 def PartsOk (ps : MsgParts) : Prop :=
@@ -4310,8 +4430,9 @@ mutual
     | .letValue p x e, buf => letValue_ok F G R ae buf p x e
     | .ifc p conds, buf => ifc_ok F G R ae buf p conds (conds_ok conds buf)
     | .msg p id m d bp body, buf => msg_ok F G R ae buf p id m d bp body (parts_ok body buf)
-    | .css .., _ => fun _ _ _ _ _ _ _ h => by simp [toCmd] at h
-    | .debugger .., _ => fun _ _ _ _ _ _ _ h => by simp [toCmd] at h
+    | .css p none suffix, buf => css_none_ok F G R ae buf p suffix
+    | .css p (some e) suffix, buf => css_some_ok F G R ae buf p e suffix
+    | .debugger p, buf => debugger_ok F G R ae buf p
     | .log .., _ => fun _ _ _ _ _ _ _ h => by simp [toCmd] at h
     | .forc p v list body none, buf => forc_none_ok F G R ae buf p v list body (body_ok' body buf)
     | .forc p v list body (some ie), buf => forc_some_ok F G R ae buf p v list body ie (body_ok' body buf) (block_ok' ie buf)
@@ -4556,8 +4677,15 @@ mutual
       simp only [hp.1] at e
       rw [e]
       exact h
-    | .css .., _, _, _, h => by simp [refCmd] at h
-    | .debugger .., _, _, _, h => by simp [refCmd] at h
+    | .css p none suffix, env, r, _, h => by
+      rw [Spec.Eval.renderCmd]
+      simpa [refCmd] using h
+    | .css p (some e) suffix, env, r, _, h => by
+      rw [Spec.Eval.renderCmd]
+      simpa [refCmd] using h
+    | .debugger p, env, r, _, h => by
+      rw [Spec.Eval.renderCmd]
+      simpa [refCmd] using h
     | .log .., _, _, _, h => by simp [refCmd] at h
     | .forc p v list body none, env, r, hp, h => by
       rw [Spec.Eval.renderCmd]
@@ -5338,7 +5466,8 @@ end ExamplesGlobals
   are outside the subset), `{let $x}…{/let}` (`var x$n = ''; x$n += …;` — the body is translated with the
   new buffer; `GoodBuf`: the buffer in use is no local the scope hands out and no name still to be
   generated), `{call name}` / `{call name data="all"}` / `{call name data="$e"}` with `{param k: e /}` and
-  `{param k}…{/param}` (see CALLS below), `{msg}` without a bundle (`toParts`: its text, HTML-tag
+  `{param k}…{/param}` (see CALLS below), `{css name}` / `{css e, name}` (`buf += e + '-';` then the name, unescaped — Spec/JsStmt
+  `.appendCss`), `{debugger}` (`debugger;`: nothing), `{msg}` without a bundle (`toParts`: its text, HTML-tag
   and print / call placeholder parts in order, in a frame of their own; a `{plural}` part is `switch (e) { case n: … break; …
   default: … }` — Spec/JsStmt `.pluralS`, a NUMBER against the integer labels; over a value that is no number Soy stops with
   an error while JavaScript takes the default clause: the semantics is `unspec` there, a C04 discrepancy of the backends; against Spec/Eval.renderParts with `hasBundle = false`:
@@ -5387,7 +5516,8 @@ end ExamplesGlobals
 
   OUTSIDE (no theorem at the command level): `range` with a computed step, `{call}` to a `{deltemplate}` (`{delcall}`),
   the converse against Spec/Eval.render where the JavaScript THROWS (Props/C04f `gen_complete_registry_spec_partial`, hypothesis
-  `hthrow`), `{msg}` with a message bundle (translated parts), `{css}`, `{log}`, `{debugger}`, `$ij` in a function called without injected data, globals that are floats / lists / maps, print directives with
+  `hthrow`), `{msg}` with a message bundle (translated parts), `{log}` (its scratch buffer `output_` is a plain name:
+  the `Keeps` / `Old` discipline — only the output variable and names generated LATER change — has no room for it), `$ij` in a function called without injected data, globals that are floats / lists / maps, print directives with
   non-literal arguments, and
   the file level above the functions (namespace declarations, goog.provide / ES6 imports — covered for SHAPE by C14, not for
   meaning; the functions themselves: Props/C04f). -/
